@@ -154,6 +154,18 @@ def enumerate_case(case):
                     if (sa.ci[1], sb.ci[1], tuple(int(x) for x in (sb.R - sa.R))) in jumps:
                         rest = [s for s in cl.sites if s is not sa and s is not sb]
                         want_TS.add(cluster.Cluster([sa, sb] + rest, transition=True))
+        # geometric reading of every TS cluster, independent of Cluster's own canonicalisation: its two special sites are mobile
+        # sites joined by a jump of the network, and all its sites together form one of the generated clusters
+        def ts_ok(t):
+            s0, s1 = t.transitionstate()
+            if s0.ci[0] != chem or s1.ci[0] != chem:
+                return False
+            if (s0.ci[1], s1.ci[1], tuple(int(x) for x in (s1.R - s0.R))) not in jumps:
+                return False
+            return cluster.Cluster(list(t.sites)) in got
+        ob('TS-special-sites-are-a-jump', all(ts_ok(t) for t in TSall))
+        ob('TS-count', len(TSall) == len(set((tuple((cs.ci, tuple(int(x) for x in (cs.R - t.sites[0].R))) for cs in t.sites[:2]),
+                                             frozenset((cs.ci, tuple(int(x) for x in (cs.R - t.sites[0].R))) for cs in t.sites[2:])) for t in TSall)))
         ob('TS-complete', all(t in TSall for t in want_TS))
         ob('TS-no-extras', all(t in want_TS for t in TSall))
         VC = cluster.makeVacancyClusters(crys, chem, clexp)
